@@ -255,7 +255,8 @@ def oracle(case, o):
         if exp is not None:
             if 'accept' in exp and not exp['fn_clash'] and not exp.get('same_twice'):
                 out.append(_f('accepted-script', cls, 'a script without conflicts is rejected with %s' % cls))
-            elif 'reject' in exp and cls not in exp['reject'] and not (exp['fn_clash'] and cls == 'SymbolError'):
+            elif 'reject' in exp and cls not in exp['reject'] and not (exp['fn_clash'] and cls == 'SymbolError') \
+                    and not (exp.get('same_twice') and cls == 'ParserError'):
                 out.append(_f('rejection-class', cls, 'conflict rejected with %s instead of %s' % (cls, '/'.join(exp['reject']))))
         return out
     # ---- accepted
@@ -300,12 +301,15 @@ def oracle(case, o):
                 if o[key] != acc[key]:
                     kind = 'order' if sorted(o[key]) == sorted(acc[key]) else 'membership'
                     out.append(_f(cl, kind, '%s list is %r, the script says %r' % (key, o[key], acc[key])))
-            lg = resolve(exp['lags'], opts['lags'], opts['min_lags'])
-            ld = resolve(exp['leads'], opts['leads'], opts['min_leads'])
-            if o['lags'] != lg:
-                out.append(_f('lags', 'script', 'LAGS = %r, the script and options give %r' % (o['lags'], lg)))
-            if o['leads'] != ld:
-                out.append(_f('leads', 'script', 'LEADS = %r, the script and options give %r' % (o['leads'], ld)))
+            # (min_lags / min_leads = None is outside the property: max(int, None) is Python's TypeError)
+            if opts['lags'] is not None or opts['min_lags'] is not None:
+                lg = resolve(exp['lags'], opts['lags'], opts['min_lags'])
+                if o['lags'] != lg:
+                    out.append(_f('lags', 'script', 'LAGS = %r, the script and options give %r' % (o['lags'], lg)))
+            if opts['leads'] is not None or opts['min_leads'] is not None:
+                ld = resolve(exp['leads'], opts['leads'], opts['min_leads'])
+                if o['leads'] != ld:
+                    out.append(_f('leads', 'script', 'LEADS = %r, the script and options give %r' % (o['leads'], ld)))
     # default range = the periods at which every equation reads inside the span
     lg, ld = o['lags'], o['leads']
     if 'inst_exc' in o:
